@@ -94,7 +94,15 @@ class FromCommandRule(EventRule):
                           (('adt', 'arguments::Arg', vi, (('cstr', b'h'),)), 'Long(h)')]
             elif v['name'] == 'ShortOption':
                 tests += [(('adt', 'arguments::Arg', vi, (const_int(ord('h')),)), 'Short(h)'),
-                          (('adt', 'arguments::Arg', vi, (const_int(ord('x')),)), 'Short(x)')]
+                          (('adt', 'arguments::Arg', vi, (const_int(ord('x')),)), 'Short(x)'),
+                          (('adt', 'arguments::Arg', vi, (const_int(ord('H')),)), 'Short(H)')]
+                # every other scalar, as one value set per encoded length: none of them is `h`
+                from ..absint import mk_int
+                for nm, lo, hi in (('Short(other 1-byte)', 0x20, 0x7E), ('Short(2-byte)', 0x80, 0x7FF)):
+                    tests.append((('adt', 'arguments::Arg', vi, (mk_int(x for x in range(lo, hi + 1) if x != ord('h')),)), nm))
+                # 3- and 4-byte scalars: those that agree with `h` in their low 8 / 16 bits (truncating casts), and a plain one
+                for cp in (0x2068, 0x1F468, 0x10068, 0x100068, 0x4E2D):
+                    tests.append((('adt', 'arguments::Arg', vi, (const_int(cp),)), 'Short(U+%04X)' % cp))
             elif v['name'] == 'Value':
                 tests += [(('adt', 'arguments::Arg', vi, (('cstr', b'help'),)), 'Value(help)'),
                           (('adt', 'arguments::Arg', vi, (('cstr', b'-h'),)), 'Value(-h)')]
